@@ -47,6 +47,85 @@ func Thorough(e *Env, prop string, spec *Spec) {
 	}
 	r.Extra("thorough_targets", append([]string{"linux/amd64"}, thoroughTargets[prop]...))
 	controls(e, prop, spec)
+	benignControls(e, prop, spec)
+}
+
+// scope: the files a property's rules read (prefixes relative to the repository root).
+var propScope = map[string][]string{
+	"C01": {"filter.go", "assembler.go"}, "C02": {"filter.go", "assembler.go"}, "C03": {"filter.go", "assembler.go"}, "C04": {"filter.go", "assembler.go", "arch/"},
+	"C05": {"filter.go", "assembler.go"}, "C06": {"assembler.go"}, "C07": {"filter.go", "assembler.go", "arch/info.go"},
+	"C08": {"seccomp_", "constants.go", "internal/unix"}, "C09": {"seccomp_", "constants.go", "internal/unix"}, "C10": {"seccomp_", "constants.go", "internal/unix", "cmd/sandbox"},
+	"C11": {"seccomp_", "constants.go", "internal/unix"}, "C12": {"arch/"}, "C13": {"filter.go", "assembler.go", "arch/", "constants.go"},
+	"C14": {"filter.go", "cmd/sandbox", "cmd/seccomp-profiler/main.go"}, "C15": {"cmd/sandbox"}, "C16": {"cmd/seccomp-profiler/disasm"},
+	"C17": {"cmd/seccomp-profiler/main.go"}, "C18": {"cmd/seccomp-profiler/main.go", "filter.go"}, "C19": {"constants.go", "internal/unix", "seccomp_"},
+}
+
+// benignControls: negative controls.  Behaviour-preserving refactorings archived under selftest/benign/agents (written by
+// sub-agents that saw only the repository, each verified by differential tests against the unchanged code) are applied to
+// a scratch copy; the property's rules should stay silent on them.  The outcome is recorded as evidence of the rules'
+// specificity; it does not decide the property and never fails the check.
+func benignControls(e *Env, prop string, spec *Spec) {
+	r := e.R
+	files, _ := filepath.Glob(filepath.Join(r.VerifDir, "selftest", "benign", "agents", "*", "r*.diff"))
+	sort.Strings(files)
+	nRun, nSilent := 0, 0
+	var noisy []string
+	for _, patch := range files {
+		b, err := os.ReadFile(patch)
+		if err != nil {
+			continue
+		}
+		relevant := false
+		for _, line := range strings.Split(string(b), "\n") {
+			if !strings.HasPrefix(line, "+++ b/") {
+				continue
+			}
+			f := strings.TrimPrefix(line, "+++ b/")
+			for _, pre := range propScope[prop] {
+				if strings.HasPrefix(f, pre) {
+					relevant = true
+				}
+			}
+		}
+		if !relevant {
+			continue
+		}
+		tmp, err := os.MkdirTemp("", "sbpf-benign-")
+		if err != nil {
+			continue
+		}
+		func() {
+			defer os.RemoveAll(tmp)
+			if out, err := exec.Command("rsync", "-a", "--exclude", ".git", e.Repo+"/", tmp+"/").CombinedOutput(); err != nil {
+				r.Note("benign control: cannot copy the tree: %v %s", err, out)
+				return
+			}
+			if _, err := exec.Command("patch", "-p1", "-s", "-f", "-d", tmp, "-i", patch).CombinedOutput(); err != nil {
+				return // no longer applies
+			}
+			sub := core.NewRun(prop, "quick", 0, spec.Level, filepath.Join(tmp, ".verif"), tmp)
+			func() {
+				defer func() {
+					if x := recover(); x != nil {
+						sub.Unknown("core", "checker-panic", "", fmt.Sprint(x))
+					}
+				}()
+				spec.Run(NewEnvFor(sub, tmp, "linux", "amd64"))
+			}()
+			nRun++
+			name := filepath.Base(filepath.Dir(patch)) + "/" + filepath.Base(patch)
+			if failed, first := sub.Failed(); failed {
+				noisy = append(noisy, name+": "+first)
+			} else {
+				nSilent++
+			}
+		}()
+	}
+	r.Count("negative controls run (behaviour-preserving refactorings)", nRun)
+	r.Count("negative controls on which the rules stayed silent", nSilent)
+	for _, n := range noisy {
+		r.Note("conservative: the rules report on the behaviour-preserving variant %s", n)
+	}
 }
 
 type seedMeta struct {
